@@ -1,0 +1,15 @@
+//go:build verif
+
+package config
+
+// VerifC29MainConfig returns the main configuration struct of a file-based Config
+// (a *configContents), so that every setting can be read by reflection.
+func VerifC29MainConfig(c Config) any {
+	f, ok := c.(*fileConfig)
+	if !ok {
+		return nil
+	}
+	f.mux.RLock()
+	defer f.mux.RUnlock()
+	return f.mainConfig
+}
